@@ -85,7 +85,14 @@ func (c *Ctx) pathOfD(v ssa.Value, d int) APath {
 			}
 		}
 		return p
-	case *ssa.Parameter, *ssa.Global, *ssa.FreeVar, *ssa.Call:
+	case *ssa.Call:
+		// a function of the two packages that can hand back one of its (pointer-like) arguments: what is done to the
+		// result may be done to that argument
+		if i := c.returnsParam(x.Call.StaticCallee(), d); i >= 0 && i < len(x.Call.Args) && !x.Call.IsInvoke() {
+			return c.pathOfD(x.Call.Args[i], d+1)
+		}
+		return APath{Root: v}
+	case *ssa.Parameter, *ssa.Global, *ssa.FreeVar:
 		return APath{Root: v}
 	case *ssa.Alloc:
 		if sp := spilledParam(x); sp != nil {
@@ -115,6 +122,34 @@ func (c *Ctx) pathOfD(v ssa.Value, d int) APath {
 		return APath{Root: v}
 	}
 	return APath{Unk: "?" + v.Name()}
+}
+
+// returnsParam: index of a parameter that some return of g hands back as its single pointer-like result (directly or
+// through another such function); -1 when there is none.
+func (c *Ctx) returnsParam(g *ssa.Function, d int) int {
+	if g == nil || !c.IsLib(g) || g.Blocks == nil || g.Signature.Results().Len() != 1 || !pointerLike(g.Signature.Results().At(0).Type()) || d > 10 {
+		return -1
+	}
+	if c.retParam == nil {
+		c.retParam = map[*ssa.Function]int{}
+	}
+	if v, ok := c.retParam[g]; ok {
+		return v
+	}
+	c.retParam[g] = -1 // cycle guard
+	res := -1
+	for _, b := range g.Blocks {
+		r, ok := b.Instrs[len(b.Instrs)-1].(*ssa.Return)
+		if !ok || len(r.Results) != 1 {
+			continue
+		}
+		rp := c.pathOfD(r.Results[0], d+2)
+		if p, isP := rp.Root.(*ssa.Parameter); isP && rp.Suffix == "" && rp.Unk == "" && p.Parent() == g {
+			res = paramIndex(p)
+		}
+	}
+	c.retParam[g] = res
+	return res
 }
 
 func paramIndex(p *ssa.Parameter) int {
